@@ -130,6 +130,26 @@ mut("c11_vertex_removal_skips_last_cell", "C11", [("forsys/virtual_edges.py",
     "            for cid in v.ownCells:\n                cells[cid].vertices.remove(v)\n",
     "            for cid in v.ownCells:\n                if len(cells[cid].vertices) > 3:\n                    cells[cid].vertices.remove(v)\n")],
     "removed points stay in the cycle of cells that are down to three vertices")
+# ---------------------------------------------------------------- behaviour-preserving refactorings
+# (expect="clean": every check must stay green on them; they live in /verif/refactors)
+mut("refactor_vertex_quiet_add_edge", "ALL", [("forsys/vertex.py",
+    "        if eid in self.ownEdges:\n            print(eid, self.ownEdges)\n            print(\"edge already in vertex\")\n            return False\n",
+    "        if eid in self.ownEdges:\n            return False\n")],
+    "drop the diagnostic prints", expect="clean")
+mut("refactor_rename_deletes", "ALL", [("forsys/fmatrix.py", "self.deletes", "self.discarded_junctions_")],
+    "rename the internal set of junctions discarded by the angle limit", expect="clean")
+mut("refactor_frame_forces_copy", "ALL", [("forsys/forsys.py",
+    "        self.frames[when].forces = self.forces[when]\n",
+    "        self.frames[when].forces = dict(self.forces[when])\n")],
+    "Frame.forces holds an equal copy instead of the same object", expect="clean")
+mut("refactor_generate_mesh_swap", "ALL", [("forsys/virtual_edges.py",
+    "    edges.clear()\n    for vi in vertexToRemove:\n        del vertices[vi]\n    #### from here\n    edges = {}\n",
+    "    edges.clear()\n    for vi in vertexToRemove:\n        vertices.pop(vi)\n    new_edges = {}\n    edges = new_edges\n")],
+    "cosmetic rewrite of the rebuild prologue", expect="clean")
+mut("refactor_pressures_as_dict", "ALL", [("forsys/forsys.py",
+    "        self.pressures[when] = self.pressure_matrices[when].solve_system(**kwargs)\n        self.frames[when].assign_pressures(self.pressures[when], self.pressure_matrices[when].mapping_order)\n",
+    "        solution = self.pressure_matrices[when].solve_system(**kwargs)\n        order = self.pressure_matrices[when].mapping_order\n        self.frames[when].assign_pressures(solution, order)\n        self.pressures[when] = {cid: solution[order[cid]] for cid in self.frames[when].cells}\n")],
+    "per-frame pressure store keyed by cell id instead of a positional list", expect="clean")
 
 
 def crlf(s):
@@ -151,13 +171,15 @@ def main():
                 p = os.path.join(tmp, "b", f)
                 data = open(p, "rb").read()
                 o, n = crlf(old), crlf(new)
-                if data.count(o) != 1:
+                if data.count(o) < 1:
                     o, n = old.encode(), new.encode()
-                assert data.count(o) == 1, (name, f, data.count(o))
+                assert data.count(o) == 1 or (expect == "clean" and data.count(o) >= 1), (name, f, data.count(o))
                 open(p, "wb").write(data.replace(o, n))
             d = subprocess.run(["diff", "-ru", "a", "b"], cwd=tmp, stdout=subprocess.PIPE).stdout
             assert d, name
-            with open(os.path.join(OUT, name + ".patch"), "wb") as fo:
+            outdir = OUT if expect != "clean" else os.path.join(os.path.dirname(OUT), "refactors")
+            os.makedirs(outdir, exist_ok=True)
+            with open(os.path.join(outdir, name + ".patch"), "wb") as fo:
                 fo.write(f"# property: {prop}\n# expect: {expect}\n# note: {note}\n".encode())
                 fo.write(d)
             msg = ""
